@@ -9,6 +9,8 @@ Tie:
     filter's numbers, which keys the real templates define / assert) regenerated from $VERIF_REPO on every run;
   * enc: compiled Lean `enc` / `crc32` versus the real `filter_to_static_assertion_value` / `zlib.crc32` on every
     documented value, random strings (all planes) and random byte strings;
+  * units with several type headers (2-3 headers generated with different option sets, both include orders, one header
+    including another): per-header diagnostics versus the model's `togetherTU`;
   * guard: `python -m nunavut` generates a support header with option set o1 and type headers with o2 (CLI switches where
     they exist, a --configuration YAML for the rest); gcc/g++ (thorough: clang too) compile them together with
     -fsyntax-only; the set of options named by static-assertion / undeclared-name diagnostics in every type header is
@@ -285,15 +287,20 @@ def compilers_for(lang, eff1, eff2, thorough):
 def compile_pair(wb, lang, g1, g2, cname, cmd):
     """Support header from g1, type headers from g2.  Returns a dict: rc, per-header guard diagnostics, other errors."""
     tu = wb.root / f"tu_{lang}{'.c' if lang == 'c' else '.cpp'}"
-    full = cmd + ["-fsyntax-only", "-DNUNAVUT_ASSERT(x)=((void)0)", "-I", str(g1.dir / "sup"), "-I", str(g2.dir / "typ"), "-I", str(wb.stubs), str(tu)]
+    return compile_tu(wb, lang, g1.dir / "sup", g2.dir / "typ", tu, TYPE_STEMS, cname, cmd)
+
+
+def compile_tu(wb, lang, supdir, typdir, tu, stems, cname, cmd):
+    """One translation unit `tu` against the support header under `supdir` and the type headers under `typdir`."""
+    full = cmd + ["-fsyntax-only", "-DNUNAVUT_ASSERT(x)=((void)0)", "-I", str(supdir), "-I", str(typdir), "-I", str(wb.stubs), str(tu)]
     try:
         p = subprocess.run(full, capture_output=True, text=True, timeout=180, env=dict(os.environ, LC_ALL="C"))
     except subprocess.TimeoutExpired:
-        return {"rc": "timeout", "headers": {}, "other": ["timeout"], "cmd": full, "stderr": "", "nums": []}
+        return {"rc": "timeout", "headers": {}, "other": ["timeout"], "cmd": full, "stderr": "", "nums": [], "names_in_text": set()}
     headers = {}
     spans = {}
-    for s in TYPE_STEMS:
-        hp = (g2.dir / "typ" / NS / (s + od.TYPE_EXT[lang])).resolve()
+    for s in stems:
+        hp = (typdir / NS / (s + od.TYPE_EXT[lang])).resolve()
         spans[str(hp)] = assert_spans(lang, hp)
         headers[s] = {}
     other, nums = [], []
@@ -390,6 +397,143 @@ def strictly_compilable(lang, d: Domain, eff):
         if all(eff.get(k) == b.get(k) or (d.by_key[k]["cli"] is not None and (k != "std" or i == 0)) for k in set(eff) | set(b)):
             return True
     return False
+
+
+# ---------------------------------------------------------------------------------------------------------------------
+# translation units that see several type headers, each generated with its own option set
+# ---------------------------------------------------------------------------------------------------------------------
+TU_LAYOUTS = [   # (name, top-level includes, which set each header is generated with: X = the support header's set)
+    ("dependency-matches-then-includer-mismatches", ["B_1_0"], {"A_1_0": "X", "B_1_0": "Y"}),
+    ("dependency-mismatches-then-includer-matches", ["B_1_0"], {"A_1_0": "Y", "B_1_0": "X"}),
+    ("match-then-mismatch", ["A_1_0", "U_1_0"], {"A_1_0": "X", "U_1_0": "Y"}),
+    ("mismatch-then-match", ["U_1_0", "A_1_0"], {"A_1_0": "X", "U_1_0": "Y"}),
+    ("three-sets", ["A_1_0", "U_1_0", "S_1_0"], {"A_1_0": "X", "U_1_0": "Y", "S_1_0": "Z"}),
+    ("three-sets-reversed", ["S_1_0", "U_1_0", "A_1_0"], {"A_1_0": "X", "U_1_0": "Y", "S_1_0": "Z"}),
+    ("all-identical", ["B_1_0", "U_1_0"], {"A_1_0": "X", "B_1_0": "X", "U_1_0": "X"}),
+]
+
+
+def block_order(tops):
+    """Order in which the guard blocks are reached: B_1_0 includes A_1_0 (before its own assertions)."""
+    order = []
+    for t in tops:
+        if t == "B_1_0" and "A_1_0" not in order:
+            order.append("A_1_0")
+        if t not in order:
+            order.append(t)
+    return order
+
+
+def build_tu(wb, lang, idx, reqX, tops, assign):
+    """Mixed include tree: every header copied from the generation with its own option set.  assign: stem -> request."""
+    mix = wb.root / f"mix{idx}"
+    (mix / NS).mkdir(parents=True)
+    ext = od.TYPE_EXT[lang]
+    for stem, req in assign.items():
+        shutil.copy(wb.get(lang, req).dir / "typ" / NS / (stem + ext), mix / NS / (stem + ext))
+    tu = mix / ("tu.c" if lang == "c" else "tu.cpp")
+    tu.write_text("".join(f'#include "{NS}/{t}{ext}"\n' for t in tops))
+    return mix, tu
+
+
+def tu_verdict(wb, lang, reqX, tops, assign, res):
+    """The property on one compiled unit, independent of the model.  Returns None or (key, what)."""
+    d = wb.dom[lang]
+    eX = d.effective(reqX)
+    order = block_order(tops)
+    unnoticed = []
+    anydiff = False
+    for stem in order:
+        e = d.effective(assign[stem])
+        diff = differing_keys(eX, e)
+        names = {od.real_name(lang, k): k for k in set(eX) | set(e)}
+        named = {names.get(n, n) for _, n in res["headers"].get(stem, [])}
+        if diff:
+            anydiff = True
+            if not (named & set(diff)):
+                unnoticed.append((stem, diff))
+        elif named:
+            return ({"kind": "identical-sets-rejected", "lang": lang, "options": sorted(named), "unit": "several-headers"},
+                    "a type header generated with the support header's options is rejected by the option guard")
+    if unnoticed:
+        stem, diff = unnoticed[0]
+        return ({"kind": "mismatching-header-unnoticed", "lang": lang, "first_header_of_unit": order.index(stem) == 0},
+                "a type header generated with different language options is not rejected when it is not the only / first "
+                "generated header of the translation unit")
+    if not anydiff and res["rc"] != 0:
+        first = (res["other"] or ["?:0: ?"])[0]
+        return ({"kind": "identical-sets-do-not-compile", "lang": lang, "file": first.split(":")[0], "error": first.split(": ", 1)[-1][:60]},
+                "headers generated with identical language options do not compile together")
+    return None
+
+
+def tu_stream(ctx, wb, drv, cases):
+    rng = ctx.rng
+    npairs = 3 if ctx.quick else 12
+    plan = []
+    for lang in od.LANGS:
+        d = wb.dom[lang]
+        X = d.ordered(dict(d.defaults))
+        cand = [c[3] for c in cases if c[0] == "single" and c[1] == lang and canon(c[2]) == canon(X)
+                and wb.get(lang, c[3]).ok and differing_keys(d.effective(X), d.effective(c[3]))]
+        rng.shuffle(cand)
+        first = d.ordered(dict(X, target_endianness="little")) if "target_endianness" in d.by_key else None
+        ys = ([first] if first else []) + cand[:npairs - 1]
+        for i, Y in enumerate(ys):
+            Z = ys[(i + 1) % len(ys)]
+            for lname, tops, amap in TU_LAYOUTS:
+                assign = {stem: {"X": X, "Y": Y, "Z": Z}[w] for stem, w in amap.items()}
+                plan.append((lang, lname, X, tops, assign))
+    wb.generate_all([(lang, r, False) for lang, _, X, _, assign in plan for r in [X] + list(assign.values())])
+    jobs = []
+    for idx, (lang, lname, X, tops, assign) in enumerate(plan):
+        if not all(wb.get(lang, r).ok for r in [X] + list(assign.values())):
+            ctx.count("tu:generation-rejected")
+            continue
+        d = wb.dom[lang]
+        mix, tu = build_tu(wb, lang, idx, X, tops, assign)
+        effs = [d.effective(r) for r in assign.values()]
+        top = max(effs, key=lambda e: int((re.fullmatch(r"c\+\+(\d+)", str(e.get("std", ""))) or [0, 0])[1]))
+        for cname, cmd in compilers_for(lang, d.effective(X), top, not ctx.quick):
+            jobs.append((idx, cname, cmd, mix, tu))
+    results = {}
+    with concurrent.futures.ThreadPoolExecutor(max_workers=NWORK) as ex:
+        futs = [(idx, cname, ex.submit(compile_tu, wb, plan[idx][0], wb.get(plan[idx][0], plan[idx][2]).dir / "sup", mix, tu,
+                                       list(plan[idx][4]), cname, cmd)) for idx, cname, cmd, mix, tu in jobs]
+        for idx, cname, f in futs:
+            results[(idx, cname)] = f.result()
+    model = {}
+    if drv is not None and jobs:
+        idxs = sorted({j[0] for j in jobs})
+        lines = []
+        for idx in idxs:
+            lang, lname, X, tops, assign = plan[idx]
+            d = wb.dom[lang]
+            lines.append(f"tu {lang} 0 {pset(lang, d.effective(X))} " + "|".join(pset(lang, d.effective(assign[s])) for s in block_order(tops)))
+        for idx, a in zip(idxs, drv.ask(lines)):
+            model[idx] = [parse_diags(t) for t in a.split("|")] if not a.startswith("err") and a != "bad-op" else a
+    for (idx, cname), res in results.items():
+        lang, lname, X, tops, assign = plan[idx]
+        d = wb.dom[lang]
+        order = block_order(tops)
+        ctx.case(("tu", lang, lname, canon(d.effective(X)), [canon(d.effective(assign[s])) for s in order], cname), True)
+        ctx.count(f"tu:{lang}:{lname}")
+        ctx.count("tu:compiled:" + ("accepted" if res["rc"] == 0 else "rejected"))
+        replay = {"tu": True, "lang": lang, "layout": lname, "includes": tops, "options_support": X,
+                  "options_per_header": assign, "guard_block_order": order}
+        if idx in model:
+            ctx.traces += 1
+            m = model[idx]
+            got = [res["headers"].get(s, []) for s in order]
+            if not isinstance(m, list) or [sorted(x) for x in m] != got:
+                ctx.disagree("tu:" + cname, replay, m, res["headers"])
+            elif (all(len(x) == 0 for x in m)) != (res["rc"] == 0) and not res["other"]:
+                ctx.disagree("tu-rc:" + cname, replay, m, {"rc": res["rc"], "stderr": res["stderr"][:500]})
+        v = tu_verdict(wb, lang, X, tops, assign, res)
+        if v is not None:
+            ctx.fail(v[0], v[1], dict(replay, compiler=cname, cmd=" ".join(res["cmd"]), rc=res["rc"], diagnostics=res["headers"],
+                                      other_errors=res["other"][:5], stderr=res["stderr"][:1200]))
+    ctx.extra["tu_units_compiled"] = len(results)
 
 
 # ---------------------------------------------------------------------------------------------------------------------
@@ -506,6 +650,36 @@ def build_cases(ctx, wb, dom):
             else:
                 o2 = random_set(d, rng, o1, rng.choice([1, 2, 2, 3, 5]))
             cases.append(("random", lang, o1, d.ordered(o2)))
+    # free-form string options: two valid `cast_format` values on which the REAL filter collides although zlib.crc32
+    # does not (birthday search; true CRC-32 collisions are skipped, so nothing is found while the filter is a CRC-32)
+    nsearch = 250000
+    for lang in od.LANGS:
+        d = wb.dom[lang]
+        basefmt = d.defaults.get("cast_format")
+        if not isinstance(basefmt, str):
+            continue
+        seen, found, true_coll = {}, None, 0
+        for _ in range(nsearch):
+            sfx = f"{basefmt} /* {rng.getrandbits(48):012x} */"
+            try:
+                rn = od.real_enc(sfx)
+            except Exception:
+                break
+            z = zlib.crc32(sfx.encode("utf-8"))
+            prev = seen.get(rn)
+            if prev is None:
+                seen[rn] = (sfx, z)
+            elif prev[0] != sfx:
+                if prev[1] != z:
+                    found = (prev[0], sfx)
+                    break
+                true_coll += 1
+        ctx.count(f"collision-search:{lang}:" + ("found" if found else "none"))
+        ctx.extra.setdefault("collision_search", {})[lang] = {"strings_tried": len(seen), "true_crc32_collisions_skipped": true_coll,
+                                                              "filter_only_collision": list(found) if found else None}
+        if found:
+            cases.append(("collision", lang, d.ordered(dict(d.defaults, cast_format=found[0])),
+                          d.ordered(dict(d.defaults, cast_format=found[1]))))
     # undocumented options: the model of the comparison itself (ints, uint32 storage, stropped names, ValueError)
     customs = [
         ({"verif_n": 7}, {"verif_n": 7}), ({"verif_n": 7}, {"verif_n": 8}), ({"verif_n": 1}, {"verif_n": True}),
@@ -724,6 +898,9 @@ def run(ctx: common.Ctx):
                     (lst if len(lst) < 12 else []).append(
                         {"lang": lang, "non_default": {k: v for k, v in e1.items() if d.defaults.get(k) != v}, "compiler": cname,
                          "first_error": (r["other"] or ["?"])[0][:120]})
+    _mark(ctx, "compared")
+    tu_stream(ctx, wb, drv, cases)
+    _mark(ctx, "tu-stream")
     # samples
     for x in infos:
         if x["results"] and x["stream"] in ("single", "random") and len(ctx.samples) < 4 and ctx.rng.random() < 0.05:
@@ -747,6 +924,24 @@ def replay(ctx, path):
     wb = Workbench(ctx, dom)
     lang = r["lang"]
     d = wb.dom[lang]
+    if r.get("tu"):
+        X, tops, assign = r["options_support"], r["includes"], r["options_per_header"]
+        wb.generate_all([(lang, q, False) for q in [X] + list(assign.values())])
+        if not all(wb.get(lang, q).ok for q in [X] + list(assign.values())):
+            print(json.dumps({"generation": "failed"}))
+            ctx.cleanup()
+            return 1
+        mix, tu = build_tu(wb, lang, 0, X, tops, assign)
+        bad = 0
+        effs = [d.effective(q) for q in assign.values()]
+        for cname, cmd in compilers_for(lang, d.effective(X), effs[-1], True):
+            res = compile_tu(wb, lang, wb.get(lang, X).dir / "sup", mix, tu, list(assign), cname, cmd)
+            v = tu_verdict(wb, lang, X, tops, assign, res)
+            bad += 1 if v else 0
+            print(json.dumps({"compiler": cname, "rc": res["rc"], "diagnostics": res["headers"], "property_holds": v is None,
+                              "violation": v[0] if v else None}))
+        ctx.cleanup()
+        return 1 if bad else 0
     r1, r2 = r["options_support"], r["options_types"]
     wb.generate_all([(lang, r1, False), (lang, r2, False)])
     g1, g2 = wb.get(lang, r1), wb.get(lang, r2)
